@@ -303,6 +303,12 @@ func digitsVectorSize(q uint64, w int) int {
 	return (int(math.Round(math.Log2(float64(q)))) + w - 1) / w
 }
 
+// BUFALIAS control: the scratch polynomial becomes the operand
+func (o *bufOwner) Park(x ring.Poly) {
+	o.BuffA[0] = x
+	o.r.NTT(o.BuffA[0], o.BuffA[0])
+}
+
 // DEGLOOP control: the last component is never negated
 func (e fixEvaluator) NegHigh(op0, opOut *rlwe.Ciphertext) {
 	for i := 1; i < op0.Degree(); i++ {
